@@ -45,7 +45,7 @@ def signature(prop, kind, scenario, detail):
     try:
         if prop != "C56":
             return None
-        if kind in ("replay", "prio") and isinstance(scenario, dict):
+        if kind == "replay" and isinstance(scenario, dict):
             fn, inp, out = scenario["fn"], scenario["in"], scenario["out"]
             act = detail.get("actual")
             if not isinstance(act, dict):
@@ -81,35 +81,24 @@ def signature(prop, kind, scenario, detail):
 def replay_both(ctx, st):
     """gen_replay with one TLC run (GenAll.tla) and two drivers: the cases of the httpsfv entry
     points go to the family's driver, the priority field values (fn = "priority") to
-    http2.parseRFC9218Priority through drivers/http2/zz_verif_sfvprio_test.go.
-    All the work is done by stages.generate / stages.stage_gen_replay; this function only
-    splits the generated items and swaps the package of the family descriptor for the second
-    part.  Violations of the second part are stored with kind "prio" so that
-    `vcheck --replay` re-runs this stage (the framework would otherwise replay the single
-    scenario through the httpsfv driver)."""
+    http2.parseRFC9218Priority through drivers/http2/zz_verif_sfvprio_test.go (per-stage keys
+    go_package / drivers / go_test of the framework).  All the work is done by
+    stages.generate / stages.stage_gen_replay; this function only splits the generated items.
+    The stage descriptor stored with a violation is a plain gen_replay stage, so
+    `vcheck --replay` replays the single scenario through the right driver."""
     import stages
     items, exhaustive = stages.generate(ctx, st)
     sfv = [v for v in items if v.get("fn") != "priority"]
     prio = [v for v in items if v.get("fn") == "priority"]
     st2 = dict(st, kind="gen_replay")
-    orig, fam0 = stages.generate, ctx.fam
+    st3 = dict(st2, go_package="http2", drivers=["drivers/http2/zz_verif_sfvprio_test.go"],
+               go_test="TestVerifSfvPriority")
+    orig = stages.generate
     try:
         stages.generate = lambda c, s: (sfv, exhaustive)
         stages.stage_gen_replay(ctx, st2)
         if prio:
-            n0 = len(ctx.found)
-            ctx.fam = dict(fam0, go_package="http2", drivers=["drivers/http2/zz_verif_sfvprio_test.go"],
-                           go_test="TestVerifSfvPriority")
             stages.generate = lambda c, s: (prio, exhaustive)
-            stages.stage_gen_replay(ctx, st2)
-            for f in ctx.found[n0:]:
-                try:
-                    d = json.load(open(f["replay"]))
-                    d["kind"], d["stage"] = "prio", st
-                    with open(f["replay"], "w") as fh:
-                        json.dump(d, fh, indent=1)
-                        fh.write("\n")
-                except Exception:
-                    pass
+            stages.stage_gen_replay(ctx, st3)
     finally:
-        stages.generate, ctx.fam = orig, fam0
+        stages.generate = orig
